@@ -29,7 +29,7 @@ pub const ALL_TAG_NAMES: &[&str] = &[
     "MovementNumber", "Location", "Grouping", "Comment", "Disc", "Label", "MUSICBRAINZ_ARTISTID", "MUSICBRAINZ_ALBUMID", "MUSICBRAINZ_ALBUMARTISTID", "MUSICBRAINZ_TRACKID", "MUSICBRAINZ_RELEASETRACKID", "MUSICBRAINZ_WORKID",
 ];
 
-pub const VALUE_SIGMA: &[&str] = &["a", " ", "\"", "'", "\\", "(", ")", "!", "=", "\u{e9}", "AND"];
+pub const VALUE_SIGMA: &[&str] = &["a", " ", "\"", "'", "\\", "(", ")", "!", "=", "\u{e9}", "AND", "\t"];
 
 #[derive(Clone, Debug, PartialEq, Eq)]
 pub enum Shape {
@@ -366,6 +366,30 @@ pub fn run(tier: Tier) -> i32 {
             }
         }
     }
+    // (7) characters a text formatter might rewrite (control characters, combining marks, format
+    // characters, private use, separators): every one of them at the start, inside and at the end
+    // of a value, under every operator
+    let mut specials: Vec<char> = (1u32..0x20).filter(|c| *c != 0x0a).filter_map(char::from_u32).collect();
+    specials.extend(['\u{7f}', '\u{80}', '\u{85}', '\u{9f}', '\u{a0}', '\u{ad}', '\u{301}', '\u{200b}', '\u{200d}', '\u{2028}', '\u{2029}', '\u{feff}', '\u{fe0f}', '\u{e000}', '\u{fffd}', '\u{10ffff}', '\u{1f600}', '\u{3000}']);
+    let acc7 = specials
+        .par_iter()
+        .map(|ch| {
+            let mut acc = Acc::default();
+            for v in [format!("{ch}x"), format!("a{ch}b"), format!("x{ch}"), ch.to_string()] {
+                for (op, ops) in OPS {
+                    acc.evaluations += 1;
+                    acc.nontrivial += 1;
+                    acc.transitions += 4;
+                    let f = Filter::new(Tag::Title, op, v.as_str());
+                    let mirror = Expr::Tag { tag: b"Title".to_vec(), op: ops.to_string(), value: v.as_bytes().to_vec() };
+                    if let Err(why) = roundtrip(&f, &mirror) {
+                        acc.viol.push(Violation::new("C11/special-character", format!("value {:?}: {why}", show_bytes(v.as_bytes())), json!({"special_value_hex": hex(v.as_bytes())})));
+                    }
+                }
+            }
+            acc
+        })
+        .reduce(Acc::default, Acc::merge);
     // (6) histories: a filter that has already been rendered (used as an argument) and is then
     // negated / extended / cloned must render like a freshly built one
     let mut acc6 = Acc::default();
@@ -412,12 +436,12 @@ pub fn run(tier: Tier) -> i32 {
             }
         }
     }
-    let acc = acc1.merge(acc2).merge(acc3).merge(acc4).merge(acc5).merge(acc6);
+    let acc = acc1.merge(acc2).merge(acc3).merge(acc4).merge(acc5).merge(acc6).merge(acc7);
     let mut cov = Coverage::default();
     cov.evaluations = acc.evaluations;
     cov.distinct_nontrivial = acc.nontrivial;
     cov.rule = format!(
-        "{} tree shapes (<=3 leaves, nesting <=3, NOT via negate() and via `!`, AND in both association orders) x every assignment of the 8 leaf kinds (5 operators, Filter::tag, tag_exists, tag_absent) with rotating tags; every tag x kind on a single leaf; at one leaf at a time every value of length <= {} over {:?} ({} values); all pairs of single-symbol values on a two-leaf AND; every tag name of the protocol x every operator; every sequence of <= 3 negate / ! / and / clone steps applied to a filter that has already been rendered, rendering after each step; each rendered through find, count, list…filter and count…group; non-trivial = trees with several leaves or a value containing a non-alphanumeric byte",
+        "{} tree shapes (<=3 leaves, nesting <=3, NOT via negate() and via `!`, AND in both association orders) x every assignment of the 8 leaf kinds (5 operators, Filter::tag, tag_exists, tag_absent) with rotating tags; every tag x kind on a single leaf; at one leaf at a time every value of length <= {} over {:?} ({} values); all pairs of single-symbol values on a two-leaf AND; every tag name of the protocol x every operator; 48 control / combining / format / separator / private-use characters at the start, inside and at the end of a value x every operator; every sequence of <= 3 negate / ! / and / clone steps applied to a filter that has already been rendered, rendering after each step; each rendered through find, count, list…filter and count…group; non-trivial = trees with several leaves or a value containing a non-alphanumeric byte",
         all_shapes.len(),
         tier.pick(4, 5),
         VALUE_SIGMA,
@@ -438,6 +462,23 @@ pub fn run(tier: Tier) -> i32 {
 }
 
 pub fn replay(case: &Value) -> i32 {
+    if let Some(h) = case.get("special_value_hex").and_then(|v| v.as_str()) {
+        let v = String::from_utf8_lossy(&unhex(h)).into_owned();
+        println!("replay C11: value {:?} under every operator", show_bytes(v.as_bytes()));
+        let mut bad = 0;
+        for (op, ops) in OPS {
+            let f = Filter::new(Tag::Title, op, v.as_str());
+            let mirror = Expr::Tag { tag: b"Title".to_vec(), op: ops.to_string(), value: v.as_bytes().to_vec() };
+            if let Err(why) = roundtrip(&f, &mirror) {
+                println!("replay: VIOLATION {ops}: {why}");
+                bad += 1;
+            }
+        }
+        if bad == 0 {
+            println!("replay: property holds on this case");
+        }
+        return if bad == 0 { 0 } else { 1 };
+    }
     if case.get("tag_name").is_some() || case.get("history").is_some() {
         println!("replay C11: re-running the whole check for this kind of case ({case})");
         return run(Tier::Quick);
